@@ -113,6 +113,25 @@ func speaksForCases(w *World, me string, roundA string, hA []Item, tag string,
 				}
 			}})
 		}
+		// a signing FAILURE report in the victim's name while the victim's answer is awaited
+		if hA[k].In.Msg.Event == "event_signing_partial_sign_received" {
+			var pid struct{ ParticipantId int }
+			json.Unmarshal(hA[k].In.Msg.Data, &pid)
+			for _, attacker := range w.Users {
+				if attacker == victim {
+					continue
+				}
+				forged := w.Msg(roundA, "event_signing_partial_sign_error_received", requests.SignatureProposalConfirmationErrorRequest{Error: requests.NewFSMError(fmt.Errorf("cannot sign")), ParticipantId: pid.ParticipantId, CreatedAt: T(95)}, attacker, "", attacker, hA[k].In.Now, "impersonate-sign-error")
+				items := append(append([]Item{}, hA[:k]...), forged)
+				att, pos := attacker, k
+				cases = append(cases, HistCase{Kind: "impersonate-sign-error", User: me, Items: items, PrefixKey: fmt.Sprintf("A%s/%d", tag, k), Check: func(o RunObs) {
+					if o.Classes[len(o.Classes)-1] != "err" || o.Before != o.After {
+						report("impersonation-accepted", map[string]interface{}{"event": "event_signing_partial_sign_error_received"},
+							fmt.Sprintf("%s reported a signing failure in the name of %s", att, victim), map[string]interface{}{"position": pos, "before": o.Before, "after": o.After})
+					}
+				}})
+			}
+		}
 		// decline in the victim's name (a different event over the victim-shaped request)
 		if hA[k].In.Msg.Event == "event_sig_proposal_confirm_by_participant" {
 			for _, attacker := range w.Users {
@@ -228,3 +247,28 @@ func scenarioC05Node(c *Ctx) {
 }
 
 func init() { scenarios["c05node"] = scenarioC05Node }
+
+// c02node: "one group key" at node level - a participant that posts, under its own valid signature, the
+// key announcements of the OTHER participants (with a key and polynomial of its choosing) before they
+// answer must be refused: otherwise every node goes signing-ready holding a polynomial the machines
+// never produced
+func scenarioC02Node(c *Ctx) {
+	w := NewWorld(3, 2, 4)
+	me := w.Users[0]
+	round := "round-c02-node"
+	h := w.Honest(round, me)
+	report := func(kind string, sig map[string]interface{}, what string, rep map[string]interface{}) {
+		sig["kind"] = kind
+		c.Fail(Failure{Property: "C02", Kind: kind, Signature: sig, What: what, Replay: rep})
+	}
+	var cases []HistCase
+	for _, hc := range speaksForCases(w, me, round, h, "-c02", report) {
+		last := hc.Items[len(hc.Items)-1]
+		if last.In.Msg.Event == "event_dkg_master_key_confirm_received" {
+			cases = append(cases, hc)
+		}
+	}
+	runCases(c, cases)
+}
+
+func init() { scenarios["c02node"] = scenarioC02Node }
